@@ -369,7 +369,7 @@ func (c *c17Case) run() error {
 			if !established(i) {
 				return
 			}
-			expect := 0
+			expect, handledWant := 0, 0
 			got := func() int { outMu[i].Lock(); defer outMu[i].Unlock(); return len(c.Out[i]) }
 			finished := false
 			pinged := make(chan int, 1)
@@ -392,6 +392,11 @@ func (c *c17Case) run() error {
 				if s.fin {
 					// finish only once everything asked so far was answered, so that the view is determined
 					waitUntil(5*time.Second, func() bool { return got() >= expect })
+					waitUntil(5*time.Second*slack, func() bool {
+						mu.Lock()
+						defer mu.Unlock()
+						return len(inLog[i]) >= handledWant
+					})
 					fctx, fc := context.WithTimeout(ctx, 8*time.Second)
 					_, _ = chans[i].FinishSession(fctx)
 					fc()
@@ -410,9 +415,17 @@ func (c *c17Case) run() error {
 				}
 				if err == nil && !finished {
 					expect += len(c17Replies(s.e))
+					handledWant++
 				}
 			}
 			waitUntil(5*time.Second, func() bool { return got() >= expect })
+			// ... and until the handlers have run for everything this client sent while its session was on (envelopes
+			// that get no reply leave no other trace)
+			waitUntil(5*time.Second*slack, func() bool {
+				mu.Lock()
+				defer mu.Unlock()
+				return len(inLog[i]) >= handledWant
+			})
 			if sent := <-pinged; sent > 0 && !finished {
 				if !waitUntil(5*time.Second*slack, func() bool { outMu[i].Lock(); defer outMu[i].Unlock(); return pongs[i] >= sent }) {
 					outMu[i].Lock()
